@@ -126,7 +126,8 @@ def run_case(case: dict[str, Any]) -> dict[str, Any]:  # noqa: C901, PLR0912, PL
     if nested:
         inner_plan = Plan(ctx)
         inner_step = inner_plan.add_step("optimizer")
-        inner_tracker = inner_plan.add_handler("tracker", sources={inner_step}, constraint_tolerance=None)
+        inner_eval = inner_plan.add_step("evaluator")
+        inner_tracker = inner_plan.add_handler("tracker", sources={inner_step, inner_eval}, constraint_tolerance=None)
 
         def inner_fn(plan: Plan, variables: np.ndarray) -> FunctionResults | None:
             user = variables if transforms is None else transforms.variables.from_optimizer(variables)
@@ -137,7 +138,14 @@ def run_case(case: dict[str, Any]) -> dict[str, Any]:  # noqa: C901, PLR0912, PL
             state["inner_runs"] += 1
             if not case.get("keep_inner_best"):  # (otherwise the tracker may hand back the very same result object again)
                 plan.set(inner_tracker, "results", None)
-            plan.run_step(inner_step, config=inner_cfg, transforms=transforms, variables=variables)
+            if case.get("inner_shift"):
+                # a scripted inner 'optimization': its result differs only slightly from the vector it was started with
+                moved = np.array(variables, dtype=np.float64)
+                moved[~free] += case["inner_shift"] * (1.0 + np.abs(moved[~free]))
+                plan.set(inner_tracker, "results", None)
+                plan.run_step(inner_eval, config=inner_cfg, transforms=transforms, variables=moved)
+            else:
+                plan.run_step(inner_step, config=inner_cfg, transforms=transforms, variables=variables)
             res = plan.get(inner_tracker, "results")
             if res is not None:
                 first = state["seen"].setdefault(id(res), (res, np.array(res.evaluations.variables, dtype=np.float64)))
@@ -292,6 +300,8 @@ def hypothesis_shard(item: dict[str, Any]) -> Collector:
                 case["unbounded"] = [v]
                 case["ptypes"] = [2 if (i == v or draw(st.booleans())) else 1 for i in range(n)]
             case["nested"] = False
+        if case["nested"] and draw(st.integers(0, 2)) == 0:  # the inner run ends very close to where it was started
+            case["inner_shift"] = draw(st.sampled_from([1e-9, 3e-6, -2e-7, 1e-3]))
         case["mask_kind"] = draw(st.sampled_from(["list", "int-array", "bool-array", "int-list", "tuple"]))
         case["script"] = [[draw(st.sampled_from(["f", "g"])), draw(st.integers(0, 2))] for _ in range(draw(st.integers(1, 8)))]
         case["script_points"] = [draw(st.sampled_from([-0.5, 0.0, 0.3, 0.8, 1.2])) for _ in range(3 * n)]
@@ -303,7 +313,7 @@ def hypothesis_shard(item: dict[str, Any]) -> Collector:
         free = sum(case["mask"])
         col.case(case, nontrivial=fixed >= 1 and free >= 1 and (info["grad"] >= 1 or info["fun"] >= 3),  # noqa: PLR2004
                  classes=(f"method={case['method']}", "rejected-config" if info.get("rejected") else "accepted-config",
-                          "relative-perturbations" if case.get("ptypes") and 2 in case["ptypes"] else "absolute-perturbations", "nested" if info["nested_runs"] else "flat",
+                          "relative-perturbations" if case.get("ptypes") and 2 in case["ptypes"] else "absolute-perturbations", ("nested-tiny-inner-move" if case.get("inner_shift") else "nested") if info["nested_runs"] else "flat",
                           "scaled" if case["vscale"] else "unscaled", f"samplers={len(case['samplers'])}",
                           "start=argument" if case["start"] is not None else "start=config", f"fixed={fixed}", f"mask-as-{case['mask_kind']}",
                           "start-near-bound" if case.get("near_bound") else "start-generic",
